@@ -72,6 +72,32 @@ pub fn build_server(max_head: usize) -> Server {
             _ => res.sendr(&Status::OK, &h, std::io::empty()),
         }
     });
+    // a header set edited with `replace` before it is passed to the handle: what goes out on the wire and what the server does
+    // with the connection must agree
+    b.route(Method::Get, "/closerep/:how", |ctx, res| {
+        let mut h = Headers::new_nodate();
+        match ctx.params.get("how") {
+            Some("toclose") => {
+                h.add("connection", &b"keep-alive"[..]);
+                h.replace("connection", &b"close"[..]);
+            }
+            Some("tokeep") => {
+                h.set_connection_close();
+                h.replace("connection", &b"keep-alive"[..]);
+            }
+            Some("twice") => {
+                h.add("Connection", &b"close"[..]);
+                h.add("x-a", &b"1"[..]);
+                h.replace("CONNECTION", &b"upgrade"[..]);
+            }
+            _ => {
+                h.add("connection", &b"x"[..]);
+                h.remove("Connection");
+                h.add("connection", &b"Close"[..]);
+            }
+        }
+        res.ok(&h, "rep")
+    });
     // ... and with a body, through the reader variants
     b.route(Method::Get, "/closer/:n", |ctx, res| {
         let n: u64 = ctx.params.get("n").and_then(|s| s.parse().ok()).unwrap_or(0);
